@@ -20,6 +20,17 @@ A(r) == SeqRange(r.after)
 ReadOnlyKinds == {"list", "all", "count", "plid", "src", "srcex", "id", "bmcid", "listhex", "allrev",
                   "listext", "file", "filehex", "deletebadid"}
 
+\* kind "multi": an invocation naming any combination of mode options (r.named, a sequence of mode names;
+\* r.clean).  The tree must change as ONE of the named modes allows; with no mode named nothing changes.
+ModeEffect(m, r) ==
+    CASE m \in {"list", "all", "count", "plid", "src", "srcex", "id", "bmcid"} -> PD!FrameOK(B(r), A(r))
+      [] m = "file" -> PD!FileOK(B(r), A(r), r.clean, r.fpath)
+      [] m = "json" -> PD!JsonOK(B(r), A(r), "out", r.clean)
+      [] m = "delete" -> PD!DeleteOneOK(B(r), A(r), r.idcp)
+      [] m = "deleteall" -> PD!DeleteAllOK(B(r), A(r))
+MultiOK(r) == IF r.named = <<>> THEN PD!FrameOK(B(r), A(r))
+              ELSE \E k \in 1..Len(r.named) : ModeEffect(r.named[k], r)
+
 EffectOK(r) ==
     LET k == r.cmd.k IN
     CASE k \in ReadOnlyKinds -> PD!FrameOK(B(r), A(r))
@@ -33,6 +44,7 @@ EffectOK(r) ==
       [] k = "jsonout" -> PD!JsonOK(B(r), A(r), "out", FALSE)
       [] k = "jsonclean" -> PD!JsonOK(B(r), A(r), "out", TRUE)
       [] k = "fileclean" -> PD!FileOK(B(r), A(r), TRUE, r.fpath)
+      [] k = "multi" -> MultiOK(r)
       [] OTHER -> FALSE
 
 \* --delete reports 'PEL not found' exactly when no file qualifies
